@@ -1,4 +1,5 @@
 import Girc.Proofs.TransModes
+import Girc.Proofs.TransModes2
 /-
   Tie (TieModes): the function bodies regenerated from the Go source on every run (Girc/Gen/Funcs.lean, written by
   tools/extract/translate.go) equal the hand-written models the property theorems of C04 and C05 are about, for ALL inputs.
@@ -22,5 +23,35 @@ example : Fn.isValidUserPrefix [0x28, 0x6F, 0x76, 0x29, 0x40] = .ok false := by 
 
 theorem tie_parsePrefixes : ∀ s : Bytes, Fn.parsePrefixes s = .ok (parsePrefixes s) := Proofs.Trans.parsePrefixes_eq
 example : Fn.parsePrefixes [0x28, 0x6F, 0x76, 0x29, 0x40, 0x2B] = .ok ([0x6F, 0x76], [0x40, 0x2B]) := by rfl
+
+/-- `(*CModes).hasArg(set, mode)` = `(hasArgs, isSetting)`. -/
+theorem tie_CModes_hasArg : ∀ (c : CModes) (set : Bool) (mode : Byte),
+    Fn.CModes_hasArg (some c) set mode = .ok (c.hasArg set mode) := Proofs.Trans.CModes_hasArg_eq
+theorem tie_CModes_hasArg_nil : ∀ (set : Bool) (mode : Byte), Fn.CModes_hasArg none set mode = .error .nilDeref :=
+  Proofs.Trans.CModes_hasArg_nil
+-- CHANMODES=b,k,l,imnpst PREFIX=(ov)@+ : "+l" takes an argument when set, "-l" does not
+example : Fn.CModes_hasArg (some (newCModes [0x62, 0x2C, 0x6B, 0x2C, 0x6C, 0x2C, 0x69] [0x6F, 0x76])) true 0x6C =
+    .ok (true, true) := by rfl
+example : Fn.CModes_hasArg (some (newCModes [0x62, 0x2C, 0x6B, 0x2C, 0x6C, 0x2C, 0x69] [0x6F, 0x76])) false 0x6C =
+    .ok (false, true) := by rfl
+
+/-- `parseUserPrefix`: what the Go code computes.  NOTE: on an input that consists of prefix symbols only (no nick)
+    the named result `modes` has been accumulated and is returned next to `success = false`; the hand-written model
+    `parseUserPrefix` returns `([], [], false)` there — the two agree whenever `success = true` and always on
+    `(nick, success)` (the callers test `success` first). -/
+theorem tie_parseUserPrefix_go : ∀ raw : Bytes,
+    Fn.parseUserPrefix raw = .ok
+      (if (raw.dropWhile isPrefixSym).isEmpty then (raw.takeWhile isPrefixSym, [], false)
+       else (raw.takeWhile isPrefixSym, raw.dropWhile isPrefixSym, true)) := Proofs.Trans.parseUserPrefix_go
+theorem tie_parseUserPrefix : ∀ raw : Bytes, (raw.dropWhile isPrefixSym).isEmpty = false →
+    Fn.parseUserPrefix raw = .ok (parseUserPrefix raw) := Proofs.Trans.parseUserPrefix_agrees
+theorem tie_parseUserPrefix_nick_success : ∀ raw : Bytes,
+    (Fn.parseUserPrefix raw).map (fun r => (r.2.1, r.2.2)) = .ok ((parseUserPrefix raw).2.1, (parseUserPrefix raw).2.2) :=
+  Proofs.Trans.parseUserPrefix_nick_success
+-- "@+nick"
+example : Fn.parseUserPrefix [0x40, 0x2B, 0x6E] = .ok ([0x40, 0x2B], [0x6E], true) := by rfl
+-- "@+": Go returns ("@+", "", false), the model ("", "", false)
+example : Fn.parseUserPrefix [0x40, 0x2B] = .ok ([0x40, 0x2B], [], false) := by rfl
+example : parseUserPrefix [0x40, 0x2B] = ([], [], false) := by rfl
 
 end Girc.Props.TieModes
